@@ -60,10 +60,16 @@ impl Ctx {
         let name = format!("{}-{}{}", if sh.ver == KeyVersion::V6 { "v6" } else { "v4" }, sh.pname, sh.subs.iter().map(|s| format!("+{}", s.2)).collect::<String>());
         let cls = format!("{name}{}", if sh.pass.is_some() { "-locked" } else { "" });
         let rp = vec!["gen".to_string(), name.clone(), seed.to_string(), sh.uids.to_string(), sh.pass.unwrap_or("").to_string()];
-        let sym_pref = [SymmetricKeyAlgorithm::AES256, SymmetricKeyAlgorithm::AES128];
-        let hash_pref = [HashAlgorithm::Sha512, HashAlgorithm::Sha256];
-        let comp_pref = [CompressionAlgorithm::ZLIB, CompressionAlgorithm::Uncompressed];
-        let aead_pref = [(SymmetricKeyAlgorithm::AES256, AeadAlgorithm::Ocb)];
+        // every combination of stated / unstated preference lists over the seeds (seed 0 mod 16: all four stated)
+        let mask = 15 - (seed % 16) as u8;
+        let sym_all = [SymmetricKeyAlgorithm::AES256, SymmetricKeyAlgorithm::AES128];
+        let hash_all = [HashAlgorithm::Sha512, HashAlgorithm::Sha256];
+        let comp_all = [CompressionAlgorithm::ZLIB, CompressionAlgorithm::Uncompressed];
+        let aead_all = [(SymmetricKeyAlgorithm::AES256, AeadAlgorithm::Ocb), (SymmetricKeyAlgorithm::AES128, AeadAlgorithm::Gcm)];
+        let sym_pref = if mask & 1 != 0 { &sym_all[..] } else { &sym_all[..0] };
+        let hash_pref = if mask & 2 != 0 { &hash_all[..] } else { &hash_all[..0] };
+        let comp_pref = if mask & 4 != 0 { &comp_all[..] } else { &comp_all[..0] };
+        let aead_pref = if mask & 8 != 0 { &aead_all[..] } else { &aead_all[..0] };
         let built = guarded(|| -> Result<SignedSecretKey, String> {
             let mut subs = Vec::new();
             for (kt, sign, _) in &sh.subs {
@@ -123,7 +129,7 @@ impl Ctx {
             facts.push(("symmetric preferences", s.preferred_symmetric_algs() == &sym_pref[..]));
             facts.push(("hash preferences", s.preferred_hash_algs() == &hash_pref[..]));
             facts.push(("compression preferences", s.preferred_compression_algs() == &comp_pref[..]));
-            if sh.ver == KeyVersion::V6 { facts.push(("aead preferences", s.preferred_aead_algs() == &aead_pref[..])); }
+            facts.push(("aead preferences", s.preferred_aead_algs() == &aead_pref[..]));
         } else if total_uids(sh) > 0 || sh.ver == KeyVersion::V6 { facts.push(("self-signature present", false)); }
         for (i, (sub, spec)) in key.secret_subkeys.iter().zip(sh.subs.iter()).enumerate() {
             let Some(b) = sub.signatures.first() else { facts.push(("subkey binding present", false)); continue; };
